@@ -16,6 +16,7 @@ import (
 	"strings"
 
 	"github.com/yaricom/goNEAT/v4/examples/pole"
+	"github.com/yaricom/goNEAT/v4/examples/pole2"
 	"github.com/yaricom/goNEAT/v4/examples/xor"
 	"github.com/yaricom/goNEAT/v4/experiment"
 	"github.com/yaricom/goNEAT/v4/neat"
@@ -146,6 +147,28 @@ gene 1 5 7 0.0 0 10 0 1
 genomeend 1
 `
 
+const pole2Start = `genomestart 1
+trait 1 0.1 0 0 0 0 0 0 0
+trait 2 0.2 0 0 0 0 0 0 0
+trait 3 0.3 0 0 0 0 0 0 0
+node 1 0 1 1
+node 2 0 1 1
+node 3 0 1 1
+node 4 0 1 1
+node 5 0 1 1
+node 6 0 1 1
+node 7 0 1 3
+node 8 0 0 2
+gene 1 1 8 0.0 0 1 0 1
+gene 2 2 8 0.0 0 2 0 1
+gene 3 3 8 0.0 0 3 0 1
+gene 1 4 8 0.0 0 4 0 1
+gene 2 5 8 0.0 0 5 0 1
+gene 2 6 8 0.0 0 6 0 1
+gene 2 7 8 0.0 0 7 0 1
+genomeend 1
+`
+
 func listFiles(dir string) []string {
 	var out []string
 	_ = filepath.Walk(dir, func(p string, info os.FileInfo, err error) error {
@@ -184,17 +207,20 @@ func main() {
 	for sc := 0; sc < *nScen; sc++ {
 		r := rand.New(rand.NewSource(seed*7907 + int64(sc)))
 		rand.Seed(seed*1009 + int64(sc))
-		kind := []string{"xor", "xor", "pole"}[sc%3]
+		kind := []string{"xor", "xor", "pole", "xor", "pole2", "pole"}[sc%6]
 		popSize := []int{8, 12, 20, 30}[r.Intn(4)]
 		opts := vhu.BaseOptions(popSize)
 		opts.PrintEvery = []int{1, 2, 3, 10}[r.Intn(4)]
 		opts.CompatThreshold = []float64{0.3, 0.6, 3.0}[r.Intn(3)]
 		opts.MutateAddNodeProb, opts.MutateAddLinkProb = 0.2, 0.3
 		var start *genetics.Genome
-		if kind == "xor" {
+		switch kind {
+		case "xor":
 			start = vhu.ReadGenomeString(vhu.XorStartGenome, 1)
-		} else {
+		case "pole":
 			start = vhu.ReadGenomeString(poleStart, 1)
+		default:
+			start = vhu.ReadGenomeString(pole2Start, 1)
 		}
 		pop, err := genetics.NewPopulation(start, opts)
 		if err != nil {
@@ -237,11 +263,16 @@ func main() {
 		_ = os.MkdirAll(odir, 0o755)
 		var ev experiment.GenerationEvaluator
 		optn := 5
-		if kind == "xor" {
+		switch kind {
+		case "xor":
 			ev = xor.NewXORGenerationEvaluator(odir)
-		} else {
+		case "pole":
 			optn = 7
 			ev = pole.NewCartPoleGenerationEvaluator(odir, r.Intn(2) == 0, []int{3, 10, 40, 200}[r.Intn(4)])
+		default:
+			// the double-pole (Markov) evaluator: same protocol, no "optimal" dump, files named pole2_...
+			optn = -1
+			ev = pole2.NewCartDoublePoleGenerationEvaluator(odir, true, []pole2.ActionType{pole2.ContinuousAction, pole2.DiscreteAction}[r.Intn(2)])
 		}
 		// what the species list before the call
 		index := map[*genetics.Organism]int{}
